@@ -35,8 +35,13 @@ Definition prefix_err (s : bytes) : bool := eqb_bytes (firstn 3 s) (bs "ERR").
    Ping(a) returns nothing; Nanoseconds() returns 42 *)
 (* service 4 (registered after the raw-frame part, hence not in `target`): the factory object and the
    children it adds to its own service answer action 100 like Hello *)
+(* service 5 (part xii, registered last): object 1 is the registrar, which returns the object id the
+   service chose for the published object (any reply); every other object of the service is a relay
+   (bus.NewClientObject) to an object hosted by a client, which answers action 100 like Hello.  The same
+   check is run on the hosting connection with the directions swapped (the relay's Calls, the hosting
+   client's Replies). *)
 Definition fres (s o a : N) (p : bytes) : bytes :=
-  if pong s || (s =? 4) then
+  if pong s || (s =? 4) || (s =? 5) then
     (if a =? 100 then match arg_of p with Some x => enc_str (bs "re:" ++ x ++ bs "#1") | None => [] end else [])
   else le 8 42.
 (* the generic actions every object built with NewBasicObject answers itself (bus/object_stub_gen.go),
@@ -48,7 +53,8 @@ Definition fres (s o a : N) (p : bytes) : bytes :=
 Definition generic_void (a : N) : bool := (a =? 1) || (a =? 81) || (a =? 83) || (a =? 85).
 Definition generic_bool (a : N) : bool := (a =? 80) || (a =? 84).
 Definition reply_ok (s o a : N) (p r : bytes) : bool :=
-  if generic_void a then eqb_bytes r []
+  if (s =? 5) && (o =? 1) then true
+  else if generic_void a then eqb_bytes r []
   else if a =? 0 then eqb_bytes r (skipn 8 p)
   else if generic_bool a then eqb_bytes r [byte_of_N 0] || eqb_bytes r [byte_of_N 1]
   else if a =? 82 then true
